@@ -25,14 +25,14 @@ CHECKS.update({
  "C02": _chain("C02", "authz", "Every state key changed by every successful transaction is classified and attributed to the authority recorded in the pre-state (owner / bridge withdrawer / sudo / IBC sudo / bridge sudo); attacks by non-authorities, former authorities and bridge accounts are generated and must be refused. Held = no unauthorised change observed."),
  "C03": _chain("C03", "atomic", "Failed executions (bundles failing at every action index, gapped nonces, replays, unaffordable actions after deposit-emitting ones) must leave an empty full-state diff (verifiable, non-verifiable, ephemeral fees/deposits) and no events; successes must consume exactly the signer's current nonce; no tx id or (signer, nonce) succeeds twice in a history."),
  "C04": _chain("C04", "bridge", "Every Deposit appearing in the block's deposit cache is matched, inside the same transaction diff, with an equal credit of the named bridge in the bridge's asset; failed executions add no deposit or deposit event; (bridge, withdrawal event id) pairs are honoured at most once per history across unlock / bridge transfer / ICS-20 withdrawal, with reuse attempts generated on purpose."),
- "C05": _chain("C05", "paths", "Three nodes and a lab node execute every decided block along independently drawn legal ABCI paths (proposer, validator after abandoned honest or corrupted rounds, syncer, restarted node); FinalizeBlock response digests, app hashes and full-state digests must agree on every height and no legal call may fail or panic on one path only."),
+ "C05": _chain("C05", "paths", "Three nodes and a lab node execute every decided block along independently drawn legal ABCI paths (proposer, validator after abandoned honest or corrupted rounds, syncer, restarted node); post-Aspen blocks carry signed oracle vote extensions (validator set with CometBFT's two-height lag, more than 2/3 committing) next to currency-pair removals and additions; FinalizeBlock response digests, app hashes and full-state digests must agree on every height and no legal call may fail or panic on one path only."),
  "C18": _chain("C18", "ibc", "Outgoing withdrawals (trace and ibc/ spelling, plain and bridge senders) and incoming packets / acks / time-outs are driven through the real Ics20Transfer handlers; an independent ICS-20 ledger per (channel, sequencer-origin asset) must equal the escrow keys after every step, error-acknowledged receives must change nothing but the ack record, successful ones exactly what the source/sink rule says (incl. the bridge deposit).", note="packets are driven at the penumbra AppHandler boundary (no ICS-23 proof verification); each outgoing packet is resolved at most once, as IBC core guarantees"),
  "C14": _chain("C14", "validators", "Sequences of validator add / update / remove actions (several per block, repeated keys, removals on 1-3 validator sets) across pre-Aspen blocks, the Aspen upgrade block and post-Aspen blocks; every FinalizeBlock.validator_updates batch is folded over the genesis set with CometBFT's rules and compared after every block with the set and count the application stores (both storage formats read through the crate's own getters on the committed snapshot)."),
- "C06": _chain("C06", "proposals", "Every PrepareProposal output (mempools filled around both limits, all max_tx_bytes classes, mixed action groups, dependent nonces, failing transactions) is checked for byte limit, sequenced-data limit, group order, acceptance by every node that processes it and fatal-error-free execution; a catalogue of ~20 single mutations (commitments, typed data items, undecodable / truncated / re-signed / duplicated / reordered / replayed / unaffordable transactions, sequenced data over the limit by one byte with a control exactly at the limit) is judged by the real ProcessProposal of a node at the same state."),
+ "C06": _chain("C06", "proposals", "Every PrepareProposal output (mempools filled around both limits, all max_tx_bytes classes incl. one straddling the size of the signed extended commit, mixed action groups, dependent nonces, failing transactions) is checked for byte limit, sequenced-data limit, group order, acceptance by every node that processes it and fatal-error-free execution; a catalogue of ~20 single mutations (commitments, typed data items, undecodable / truncated / re-signed / duplicated / reordered / replayed / unaffordable transactions, sequenced data over the limit by one byte with a control exactly at the limit) is judged by the real ProcessProposal of a node at the same state."),
  "C15": dict(engine="chainsim", cat="exploration", ref="DESIGN.md §5 C15",
    technique="runtime monitoring: real ProposalHandler::validate_proposal / prepare_proposal / price aggregation driven with harness-signed vote extensions on a post-Aspen ChainSim state; offline exact-integer oracle over the recorded cases",
    text="Every voting-power vector over a 9-value alphabet for <=3 (quick) / <=4 (thorough) validators x every signer subset, each with the all-valid extended commit and rotating defects (forged / mis-attributed / wrong height, round or chain signatures, missing signature, oversized / malformed / unknown-pair extensions, duplicated voter, outsider, nil vote with extension, five kinds of last-commit mismatch), plus the empty extended commit; accepted commits have their published prices compared with the min/max of the reported prices (signed 128-bit extremes, negative values, even and odd reporter counts).",
-   note="validity of signatures and last-commit agreement is known by construction; the ABCI wrapping (DataItem encoding, proposed_last_commit plumbing) is exercised by the ChainSim profiles with empty extensions only"),
+   note="validity of signatures and last-commit agreement is known by construction; the ABCI wrapping (DataItem encoding, proposed_last_commit plumbing, size fallback) is exercised with signed extensions by the ChainSim profiles paths / proposals (C05, C06)"),
  "C07": _chain("C07", "rollups", "After every commit the real GetSequencerBlock / GetFilteredSequencerBlock handlers are called (every subset of the block's rollup ids plus an absent id for <=4 rollups, sampled above) and decoded with the public checked types; the block is split for Celestia and audited conductor-style with an independent RFC 6962 root; the oracle compares every view with the block's rollup submissions in execution order followed by its deposits (from the lab's diffs), and a catalogue of 19 single-element tamperings of the served / published artefacts must be rejected by the receiver-side verification."),
 })
 
@@ -58,7 +58,7 @@ CHECKS["C10"] = dict(engine="conductor-executor", cat="exploration", ref="DESIGN
 
 CHECKS["C17"] = dict(engine="vh-wire", cat="exploration", ref="DESIGN.md §5 C17",
    technique="runtime monitoring / sanitizer-style: panic monitor + round-trip and re-verification oracle over structure-aware protobuf mutants of valid encodings fed to the public astria-core decoders; thorough tier adds valgrind memcheck on the release binary",
-   text="Valid transactions (8 action kinds), sequencer blocks, filtered blocks, Celestia metadata and rollup-data entries and brotli blobs are built with the crate's own builders and mutated at every nesting level (field deletion / duplication / reordering, varints to boundary values and +-1, corrupted length prefixes, 32-byte elements appended or removed, byte flips, truncation at every offset, splices, random bytes; blobs also re-compressed after mutation); every decoder entry point runs under a panic monitor, accepted values must re-encode to the same bytes and their derived artefacts must verify again.",
+   text="Valid transactions (8 action kinds), sequencer blocks, filtered blocks, Celestia metadata and rollup-data entries and brotli blobs are built with the crate's own builders and mutated at every nesting level (field deletion / duplication / reordering, varints to boundary values and +-1, corrupted length prefixes, 32-byte elements appended or removed, byte flips, truncation at every offset, splices, random bytes; blobs also re-compressed after mutation); every decoder entry point runs under a panic monitor, accepted values must re-encode to the same bytes, their derived artefacts must decode again, and every inclusion proof an accepted full or filtered block carries (per rollup, rollup-transactions root, rollup-ids root) must verify again against the accepted header with the library's own Proof::verify (an independent RFC 9162 verifier runs next to it; its disagreements are reported as observations).",
    note="the service wrappers (CheckTx, conductor blob fetch) are exercised by the ChainSim CheckTx path and the C09 pipeline with junk blobs; Miri is not used here (ed25519 and brotli are too slow under the interpreter for a useful slice)")
 
 CHECKS["C11"] = dict(engine="relayer-crash", cat="fault_enumeration", ref="DESIGN.md §5 C11",
